@@ -35,6 +35,14 @@ func (w *world) drawResult(v int) result {
 	}
 }
 
+// attempt is one SetResult call on the plain promise: registered before the
+// call, because an awaiter may legitimately see the result before the winning
+// SetResult has returned.
+type attempt struct {
+	r     result
+	state int // 0 in flight, 1 returned true, 2 returned false
+}
+
 type awaiter struct {
 	id        int
 	task      *simrt.Task
@@ -58,9 +66,11 @@ type world struct {
 	c    *core.Ctx
 	cont bool
 	// plain promise
-	p      *promise.Promise[int]
-	winner *result
-	nTrue  int
+	p        *promise.Promise[int]
+	winner   *result
+	nTrue    int
+	attempts []*attempt
+	seen     []result // results returned to awaiters
 	// container
 	pc    *promise.PromiseContainer[int]
 	hist  core.CellHistory // Val: *slot
@@ -163,13 +173,20 @@ func (w *world) checkReturn(x *awaiter, v int, err error, ret int) {
 	}
 	// result outcomes
 	if !w.cont {
-		if w.winner == nil {
-			c.Fail("C11.R1.result-without-winner", "awaiter %d returned (%d,%v) but no SetResult has returned true and none of its interruption sources fired", x.id, v, err)
+		w.seen = append(w.seen, result{v, err})
+		if w.winner != nil {
+			if v != w.winner.v || err != w.winner.err {
+				c.Fail("C11.R1.wrong-result", "awaiter %d returned (%d,%v) but the winning SetResult was (%d,%v)", x.id, v, err, w.winner.v, w.winner.err)
+			}
 			return
 		}
-		if v != w.winner.v || err != w.winner.err {
-			c.Fail("C11.R1.wrong-result", "awaiter %d returned (%d,%v) but the winning SetResult was (%d,%v)", x.id, v, err, w.winner.v, w.winner.err)
+		// no SetResult has returned true yet: the result must be that of a call still in flight
+		for _, at := range w.attempts {
+			if at.state == 0 && at.r.v == v && at.r.err == err {
+				return
+			}
 		}
+		c.Fail("C11.R1.result-without-winner", "awaiter %d returned (%d,%v) but no SetResult call (returned true or still in flight) carries that result and none of its interruption sources fired", x.id, v, err)
 		return
 	}
 	for _, wr := range w.hist.Writes {
@@ -194,13 +211,18 @@ func (w *world) setter(id int) {
 	w.gate()
 	r := w.drawResult(id*10 + 7)
 	c.Descf("setter %d: SetResult(%d,%v)", id, r.v, r.err)
+	at := &attempt{r: r}
+	w.attempts = append(w.attempts, at)
 	if w.p.SetResult(r.v, r.err) {
+		at.state = 1
 		w.nTrue++
 		if w.nTrue > 1 {
 			c.Fail("C11.S1.two-winners", "two SetResult calls on one Promise returned true")
 		}
 		rr := r
 		w.winner = &rr
+	} else {
+		at.state = 2
 	}
 }
 
@@ -375,6 +397,15 @@ func run(c *core.Ctx) {
 		}
 		c.Stuck("no event to inject but tasks are not done: %s", c.S.StalledString())
 		return
+	}
+	if !w.cont {
+		// every result an awaiter saw is the result of the one winning call
+		for _, r := range w.seen {
+			if w.winner == nil || r.v != w.winner.v || r.err != w.winner.err {
+				c.Fail("C11.R1.wrong-result", "an awaiter returned (%d,%v) but the SetResult call that returned true was %+v", r.v, r.err, w.winner)
+				return
+			}
+		}
 	}
 	if !w.cont && w.winner != nil {
 		// a late awaiter sees the same result; a late SetResult loses
